@@ -17,6 +17,7 @@ import (
 	custodytypes "github.com/KiraCore/sekai/x/custody/types"
 	govtypes "github.com/KiraCore/sekai/x/gov/types"
 	multistakingtypes "github.com/KiraCore/sekai/x/multistaking/types"
+	slashingtypes "github.com/KiraCore/sekai/x/slashing/types"
 	abci "github.com/cometbft/cometbft/abci/types"
 	sdk "github.com/cosmos/cosmos-sdk/types"
 	banktypes "github.com/cosmos/cosmos-sdk/x/bank/types"
@@ -24,7 +25,7 @@ import (
 
 func init() { props["C01"] = runC01 }
 
-var c01Stores = []string{"acc", "bank", "customgov", "customstaking", "customslashing", "distributor", "multistaking", "tokens", "spending", "ubi", "basket", "custody", "collectives", "layer2", "recovery", "feeprocessing", "upgrade", "params", "evidence"}
+var c01Stores = []string{"acc", "bank", "customgov", "customstaking", "customslashing", "distributor", "multistaking", "tokens", "spending", "ubi", "basket", "custody", "collectives", "layer2", "recovery", "feeprocessing", "upgrade", "params", "customevidence", "ethereum"}
 
 type c01Block struct {
 	msgs   [][]sdk.Msg // one tx per entry
@@ -74,8 +75,12 @@ func c01Generate(r *Rec, nBlocks int, withCustody bool, nAcc, nVal int) []c01Raw
 	key := func(i, gen int) string { return fmt.Sprintf("key-%d-%d", i, gen) }
 	sha := func(s string) string { h := sha256.Sum256([]byte(s)); return hex.EncodeToString(h[:]) }
 	keyGen := map[int]int{}
+	pausedVals := map[int]bool{}
 	for b := 0; b < nBlocks; b++ {
 		raw := c01Raw{absent: map[int]bool{}, dt: time.Duration(3+r.Rng.Intn(8)) * time.Second}
+		if r.Rng.Intn(9) == 0 {
+			raw.dt = time.Duration(200+r.Rng.Intn(300)) * time.Second // lets proposals reach voting end / enactment, polls expire
+		}
 		if r.Rng.Intn(5) == 0 && nVal > 1 {
 			raw.absent[r.Rng.Intn(nVal)] = true
 		}
@@ -142,6 +147,19 @@ func c01Generate(r *Rec, nBlocks int, withCustody bool, nAcc, nVal int) []c01Raw
 				}
 				used[sudo] = true
 				msgs = []sdk.Msg{govtypes.NewMsgVoteProposal(1+uint64(r.Rng.Intn(int(propN))), A[sudo], govtypes.OptionYes, sdk.ZeroDec())}
+			case x < 80 && s < nVal && nVal > 1:
+				// validator owner pauses / unpauses (never the last active one: validator 0 stays)
+				if s == 0 {
+					continue
+				}
+				if pausedVals[s] {
+					kind = "unpause"
+					msgs = []sdk.Msg{slashingtypes.NewMsgUnpause(sdk.ValAddress(A[s]))}
+				} else {
+					kind = "pause"
+					msgs = []sdk.Msg{slashingtypes.NewMsgPause(sdk.ValAddress(A[s]))}
+				}
+				pausedVals[s] = !pausedVals[s]
 			case x < 84:
 				kind = "pool+delegate"
 				v := r.Rng.Intn(nVal)
@@ -242,7 +260,7 @@ func c01StoreDiff(a, b *World) []string {
 	ca, cb := a.ReadCtx(), b.ReadCtx()
 	for _, name := range c01Stores {
 		ka, kb := a.app.GetKey(name), b.app.GetKey(name)
-		if ka == nil || kb == nil {
+		if ka == nil || kb == nil || ka.Name() == "" {
 			continue
 		}
 		ma, mb := dumpStore(ca, ka), dumpStore(cb, kb)
